@@ -254,19 +254,48 @@ pub fn run_cop_on(sign: &Sign, op: &str) -> Option<Result<String, SignError>> {
             // shrugs off their errors (a panic in them is a panic of the iterator)
             let (nested, pages_s) = p[2].split_once('.').expect("SNN needs calls and pages");
             let pages = pages_of_str(pages_s);
-            let pre: Vec<Vec<String>> = nested.split('~').map(|f| if f == "-" { vec![] } else { f.split('/').map(|c| c.replace(':', ".")).collect() }).collect();
+            let mut pre: Vec<Vec<String>> = nested.split('~').map(|f| if f == "-" || f == "@-" { vec![] } else { f.trim_start_matches('@').split('/').map(|c| c.replace(':', ".")).collect() }).collect();
+            // a first field that begins with '@' holds the calls the iterator makes each time it is CLONED
+            let on_clone: Vec<String> = if nested.starts_with('@') { pre.remove(0) } else { vec![] };
             let bus = PEEK_BUS.with(|b| b.borrow().clone()).expect("a bus");
-            let it = pages.iter().enumerate().map(|(i, pg)| {
-                for c in pre.get(i).map(|v| &v[..]).unwrap_or(&[]) {
-                    let q: Vec<&str> = c.splitn(3, '.').collect();
-                    let same_sign = Address(num::<u16>(q[1])) == sign.address() && ((q[0] != "CFG" && q[0] != "CIN") || SIGN_TYPES[num::<usize>(q[2])] == sign.sign_type());
-                    let r = if same_sign { run_cop_on(sign, c) } else { run_cop(c, bus.clone()) };
-                    if r.is_none() {
-                        panic!("the call made by the page iterator panicked");
-                    }
+            let call = |c: &String| {
+                let q: Vec<&str> = c.splitn(3, '.').collect();
+                let same_sign = Address(num::<u16>(q[1])) == sign.address() && ((q[0] != "CFG" && q[0] != "CIN") || SIGN_TYPES[num::<usize>(q[2])] == sign.sign_type());
+                let r = if same_sign { run_cop_on(sign, c) } else { run_cop(c, bus.clone()) };
+                if r.is_none() {
+                    panic!("the call made by the page iterator panicked");
                 }
-                pg
-            });
+            };
+            struct CloneTalks<'c, I> {
+                inner: I,
+                on_clone: &'c dyn Fn(),
+            }
+            impl<'c, I: Iterator> Iterator for CloneTalks<'c, I> {
+                type Item = I::Item;
+                fn next(&mut self) -> Option<Self::Item> {
+                    self.inner.next()
+                }
+            }
+            impl<'c, I: Clone> Clone for CloneTalks<'c, I> {
+                fn clone(&self) -> Self {
+                    (self.on_clone)();
+                    CloneTalks { inner: self.inner.clone(), on_clone: self.on_clone }
+                }
+            }
+            let talk_on_clone = || {
+                for c in &on_clone {
+                    call(c);
+                }
+            };
+            let it = CloneTalks {
+                inner: pages.iter().enumerate().map(|(i, pg)| {
+                    for c in pre.get(i).map(|v| &v[..]).unwrap_or(&[]) {
+                        call(c);
+                    }
+                    pg
+                }),
+                on_clone: &talk_on_clone,
+            };
             guarded(|| sign.send_pages(it).map(|s| format!(".{}", str_style(s))))
         }
         "SNF" => {
